@@ -986,7 +986,9 @@ class PythonSolver:
             solver=utils.solver_direct_scipy()
         )
         fake_strain = self.calculate_strain(de)
-        integrand1 = np.einsum("iijk", self.state_np1.tangent[2, 2] * fake_strain)
+        integrand1 = np.einsum(
+            "ijkl,ijkl->kl", self.state_np1.tangent[2, 2], fake_strain
+        )
         integrand2 = self.state_np1.tangent[2, 2, 2, 2]
 
         self.state_np1.force = np.sum(self.state_np1.stress[2, 2] * dx)
